@@ -640,6 +640,10 @@ pub fn generic_zoo(rng: &mut Rng) -> String {
     "    let viaFn2 = Main.convBack(Feet.init(0), Meters.init(8));\n    Process.println(\"fn2=\" :: Str.fromInt(viaFn2.v));\n",
     "    let boxed = Box.init(Fwd.init(Meters.init(4), Feet.init(0)));\n    Process.println(\"boxed=\" :: Str.fromInt(boxed.item.run().v));\n",
     "    let lam = (m: Meters) -> Fwd.init(m, Feet.init(0)).run();\n    Process.println(\"lam=\" :: Str.fromInt(lam(Meters.init(5)).v));\n",
+    // unannotated lambdas as arguments of calls whose type parameters are inferred
+    "    let viaLam = Main.apply1(3, (x) -> x + 1);\n    Process.println(\"viaLam=\" :: Str.fromInt(viaLam));\n",
+    "    let viaLam2 = Main.apply1(Meters.init(2), (m) -> m.into().v);\n    Process.println(\"viaLam2=\" :: Str.fromInt(viaLam2));\n",
+    "    let viaLam3 = Main.apply1(Feet.init(7), (f) -> if f.v > 3 { (y: int) -> y + f.v } else { (y: int) -> y });\n    Process.println(\"viaLam3=\" :: Str.fromInt(viaLam3(1)));\n",
     // branches that can only be typed from an earlier branch (no type from outside)
     "    let elseIfOpt = if Feet.init(1).v > 5 { Option.Some(3) } else if Feet.init(2).v > 5 { Option.None() } else { Option.None() };\n    Process.println(\"elseIfOpt=\" :: Str.fromInt(elseIfOpt.valueMap(7, (v) -> v)));\n",
     "    let elseIfLam = if Feet.init(1).v > 5 { (x: int) -> x + 1 } else if Feet.init(2).v > 5 { (x) -> x } else { (x) -> 0 - x };\n    Process.println(\"elseIfLam=\" :: Str.fromInt(elseIfLam(4)));\n",
@@ -649,7 +653,7 @@ pub fn generic_zoo(rng: &mut Rng) -> String {
   let keep = 4 + rng.below(uses.len() - 3);
   uses.truncate(keep);
   format!(
-    "import {{ Option }} from std.option\ninterface Into<T> {{\n  method into(): T\n}}\ninterface Cmp<T> {{\n  method cmp(other: T): int\n}}\nclass Box<T>(val item: T) {{}}\nclass Feet(val v: int) : Cmp<Feet>, Into<Inches> {{\n  method cmp(other: Feet): int = this.v - other.v\n  method into(): Inches = Inches.init(this.v * 12)\n}}\nclass Inches(val v: int) {{}}\nclass Meters(val v: int) : Into<Feet> {{\n  method into(): Feet = Feet.init(this.v * 3)\n}}\nclass Crate(val f: Feet) : Into<Box<Feet>> {{\n  method into(): Box<Feet> = Box.init(this.f)\n}}\n{}class Main {{\n  function <A: Into<B>, B> conv(a: A, unused: B): B = a.into()\n  function <A, B: Into<A>> convBack(unused: A, b: B): A = b.into()\n  function main(): unit = {{\n{}  }}\n}}\n",
+    "import {{ Option }} from std.option\ninterface Into<T> {{\n  method into(): T\n}}\ninterface Cmp<T> {{\n  method cmp(other: T): int\n}}\nclass Box<T>(val item: T) {{}}\nclass Feet(val v: int) : Cmp<Feet>, Into<Inches> {{\n  method cmp(other: Feet): int = this.v - other.v\n  method into(): Inches = Inches.init(this.v * 12)\n}}\nclass Inches(val v: int) {{}}\nclass Meters(val v: int) : Into<Feet> {{\n  method into(): Feet = Feet.init(this.v * 3)\n}}\nclass Crate(val f: Feet) : Into<Box<Feet>> {{\n  method into(): Box<Feet> = Box.init(this.f)\n}}\n{}class Main {{\n  function <A: Into<B>, B> conv(a: A, unused: B): B = a.into()\n  function <A, B: Into<A>> convBack(unused: A, b: B): A = b.into()\n  function <A, B> apply1(a: A, f: (A) -> B): B = f(a)\n  function main(): unit = {{\n{}  }}\n}}\n",
     classes.concat(),
     uses.concat()
   )
